@@ -45,6 +45,8 @@ type c16Params struct {
 	maxTx       int
 	subsetEvery int // a Subset node after every k blocks (0: one at the end)
 	big         int // 1: some transactions of 20..40 KB (3-byte section length prefix), rewards and dataframe nodes
+	//             2: block b also holds a dataframe whose section payload (cid+data) is c16Boundary[b%len] bytes
+	//             3: as 2, including the 2^21 boundary
 }
 
 func (p c16Params) id() string {
@@ -85,6 +87,36 @@ func (w *c16CarW) put(data []byte, err error) cid.Cid {
 		panic(err)
 	}
 	return c
+}
+
+// section payload lengths (len(cid)+len(data)) on and around the points where the uvarint length prefix grows
+var c16Boundary = []int{126, 127, 128, 129, 130, 255, 256, 16382, 16383, 16384, 16385, 16511, 16512}
+var c16BoundaryBig = []int{2097151, 2097152, 2097153}
+
+// c16ExactFrame returns an encoded DataFrame node of exactly `want` bytes: the data length is tuned, and the
+// width of the hash field is varied to step over the sizes a CBOR length-header jump makes unreachable.
+func c16ExactFrame(rng *zz.RNG, want int) []byte {
+	for _, hash := range []int{5, 200, 70000, 1 << 33} {
+		n := want - 16
+		if n < 0 {
+			n = 0
+		}
+		for tries := 0; tries < 16; tries++ {
+			df := ipldbindcode.DataFrame{Kind: 6, Hash: c16pp(hash), Index: c16pp(0), Total: c16pp(1), Data: rng.Bytes(n)}
+			enc, err := df.MarshalCBOR()
+			if err != nil {
+				panic(err)
+			}
+			if len(enc) == want {
+				return enc
+			}
+			n += want - len(enc)
+			if n < 0 {
+				n = 0
+			}
+		}
+	}
+	panic(fmt.Sprintf("c16ExactFrame: cannot reach %d bytes", want))
 }
 
 func c16GenEpoch(p c16Params, dir string) *c16Epoch {
@@ -139,6 +171,13 @@ func c16GenEpoch(p c16Params, dir string) *c16Epoch {
 			e := ipldbindcode.Entry{Kind: 1, NumHashes: 7, Hash: rng.Bytes(32)}
 			entryLinks = append(entryLinks, cidlink.Link{Cid: w.put(e.MarshalCBOR())})
 		}
+		if p.big >= 2 { // a frame on a length-prefix boundary, inside this block's DAG
+			bl := c16Boundary
+			if p.big == 3 {
+				bl = append(append([]int{}, c16Boundary...), c16BoundaryBig...)
+			}
+			w.put(c16ExactFrame(rng, bl[b%len(bl)]-36), nil)
+		}
 		rewards := cidlink.Link{Cid: DummyCID}
 		if p.big == 1 && rng.Intn(3) == 0 {
 			rw := ipldbindcode.Rewards{Kind: 5, Slot: int(slot), Data: ipldbindcode.DataFrame{Kind: 6, Index: c16pp(0), Total: c16pp(1), Data: rng.Bytes(rng.Intn(400))}}
@@ -178,6 +217,7 @@ func c16GenEpoch(p c16Params, dir string) *c16Epoch {
 
 type c16Section struct {
 	off, size int
+	plen      int // len(cid)+len(data): what the length prefix encodes
 	kind      int // data[1] of a CBOR array node
 }
 
@@ -194,7 +234,7 @@ func c16Sections(b []byte) (secs []c16Section, ok bool) {
 		if err != nil || cl+2 > len(body) {
 			return secs, false
 		}
-		secs = append(secs, c16Section{off: off, size: n + int(l), kind: int(body[cl+1])})
+		secs = append(secs, c16Section{off: off, size: n + int(l), plen: int(l), kind: int(body[cl+1])})
 		off += n + int(l)
 	}
 	return secs, true
@@ -211,6 +251,7 @@ func c16HeaderLen(b []byte) int {
 type c16Parsed struct {
 	hdrLen int
 	dags   [][]int // section lengths of each block DAG (objects…, block)
+	plens  []int   // section payload lengths of all DAG members
 	data   []byte  // concatenation of all block DAG sections = data part without Subset / Epoch nodes
 	bounds map[int]bool
 }
@@ -228,6 +269,7 @@ func c16ParseEpoch(car []byte) *c16Parsed {
 			continue
 		}
 		cur = append(cur, s.size)
+		p.plens = append(p.plens, s.plen)
 		curBytes = append(curBytes, car[p.hdrLen+s.off:p.hdrLen+s.off+s.size]...)
 		if s.kind == 2 {
 			p.dags = append(p.dags, cur)
@@ -298,6 +340,23 @@ func (in *c16Interp) epochOf(p c16Params) (*c16Epoch, *c16Parsed) {
 	e := c16GenEpoch(p, in.dir)
 	in.epochs[k] = e
 	in.parsed[k] = c16ParseEpoch(e.car)
+	for _, l := range in.parsed[k].plens { // generator boundaries hit
+		for _, b := range append(append([]int{}, c16Boundary...), c16BoundaryBig...) {
+			if l == b {
+				in.s.Count(fmt.Sprintf("gen-section-payload-len-%d", b))
+			}
+		}
+		switch {
+		case l < 128:
+			in.s.Count("gen-section-prefix-1-byte")
+		case l < 16384:
+			in.s.Count("gen-section-prefix-2-bytes")
+		case l < 2097152:
+			in.s.Count("gen-section-prefix-3-bytes")
+		default:
+			in.s.Count("gen-section-prefix-4-bytes")
+		}
+	}
 	return e, in.parsed[k]
 }
 
@@ -847,6 +906,9 @@ func TestVerifC16Split(t *testing.T) {
 	}
 	plans = append(plans, c16Plan{p: c16Params{seed, 30, 5, 0, 0}, nTarget: nt})
 	plans = append(plans, c16Plan{p: c16Params{seed, 40, 6, 7, 1}, nTarget: nt - 4})
+	// objects whose section payload length sits on / next to every point where the length prefix grows
+	plans = append(plans, c16Plan{p: c16Params{seed, 2 * len(c16Boundary), 2, 5, 2}, nTarget: 12})
+	plans = append(plans, c16Plan{p: c16Params{seed, 3, 1, 0, 2}, allCrit: true, reread: true}) // payloads 126,127,128
 	if zz.Thorough() {
 		for i := 0; i < 6; i++ {
 			plans = append(plans, c16Plan{p: c16Params{seed + uint64(100+i), 2 + rng.Intn(9), rng.Intn(5), rng.Intn(4), i % 2}, allCrit: true, reread: i < 3})
@@ -855,6 +917,8 @@ func TestVerifC16Split(t *testing.T) {
 			plans = append(plans, c16Plan{p: c16Params{seed + uint64(200+i), 20 + rng.Intn(60), 1 + rng.Intn(8), rng.Intn(12), i % 2}, nTarget: 40})
 		}
 		plans = append(plans, c16Plan{p: c16Params{seed, 300, 4, 50, 1}, nTarget: 40})
+		plans = append(plans, c16Plan{p: c16Params{seed, len(c16Boundary) + len(c16BoundaryBig), 1, 0, 3}, nTarget: 6})
+		plans = append(plans, c16Plan{p: c16Params{seed + 7, len(c16Boundary), 3, 2, 2}, allCrit: true})
 	}
 	for _, pl := range plans {
 		in.runPlan(pl, rng)
